@@ -516,3 +516,266 @@ Theorem server_chunk_scan_total : forall body start,
 Proof.
   intros. split; [destruct (chunked_end body start); exact I|]. apply advance_no_fuel. lia.
 Qed.
+
+(* ------------------------------------------------ server: segmentation independence *)
+
+Lemma trailers_fuel_irrel : forall f1 f2 l, (length l < f1)%nat -> (length l < f2)%nat ->
+  trailers f1 l = trailers f2 l.
+Proof.
+  induction f1 as [|f1 IH]; intros f2 l H1 H2; [lia|]. destruct f2 as [|f2]; [lia|]. cbn [trailers].
+  destruct (find_pat [10] l) as [[line after]|] eqn:Ef; [|reflexivity].
+  destruct (rev line) as [|c revrest]; [reflexivity|].
+  destruct (negb (c =? 13)); [reflexivity|]. destruct revrest; [reflexivity|].
+  apply find_pat_spec in Ef. apply IH; subst l; rewrite !app_length in *; cbn [length] in *; lia.
+Qed.
+
+Definition ext_tr (r : option (list N)) (E : list N) : option (list N) :=
+  match r with Some s => Some (s ++ E) | None => None end.
+
+(* a finished (or malformed) trailer section stays so when more bytes follow *)
+Lemma trailers_extend : forall f l E r, (length l < f)%nat -> trailers f l = Some r ->
+  trailers (S (length (l ++ E))) (l ++ E) = Some (ext_tr r E).
+Proof.
+  induction f as [|f IH]; intros l E r Hf H; [lia|]. cbn [trailers] in H. cbn [trailers].
+  destruct (find_pat [10] l) as [[line after]|] eqn:Ef; [|discriminate].
+  rewrite (find_pat_app_found _ _ _ _ E Ef).
+  destruct (rev line) as [|c revrest]; [now injection H as <-|].
+  destruct (negb (c =? 13)); [now injection H as <-|].
+  destruct revrest as [|x revrest]; [now injection H as <-|].
+  pose proof (find_pat_spec _ _ _ _ Ef) as HX. pose proof (f_equal (@length N) HX) as L1.
+  rewrite !app_length in L1. cbn [length] in L1.
+  rewrite (trailers_fuel_irrel _ (S (length (after ++ E))) (after ++ E)).
+  - apply (IH after E r); [lia|exact H].
+  - rewrite !app_length. lia.
+  - lia.
+Qed.
+
+Definition ext_res (r : cstat) (E : list N) : cstat :=
+  match r with CDone d s => CDone d (s ++ E) | other => other end.
+Definition settled_res (r : cstat) : Prop :=
+  match r with CDone _ _ | CMal => True | _ => False end.
+
+(* a chunked body that is complete (or malformed) is framed and decoded the same whatever follows it *)
+Lemma advance_extend cap : forall f X dec E,
+  (length X < f)%nat -> settled_res (advance f cap X dec) ->
+  advance (S (length (X ++ E))) cap (X ++ E) dec = ext_res (advance f cap X dec) E.
+Proof.
+  induction f as [|f IH]; intros X dec E Hf H; [lia|].
+  cbn [advance] in *.
+  destruct (find_pat [10] X) as [[line after]|] eqn:Ef; [|contradiction].
+  rewrite (find_pat_app_found _ _ _ _ E Ef).
+  destruct (rev line) as [|c revcontent] eqn:Er; [reflexivity|].
+  destruct (negb (c =? 13)) eqn:Ec; [reflexivity|].
+  destruct (chunk_size_line (rev revcontent) cap) as [sz|] eqn:Es; [|reflexivity].
+  pose proof (find_pat_spec _ _ _ _ Ef) as HX. pose proof (f_equal (@length N) HX) as L1.
+  rewrite !app_length in L1. cbn [length] in L1.
+  destruct (sz =? 0) eqn:E0.
+  { destruct (trailers (S (length after)) after) as [r|] eqn:Et; [|contradiction].
+    rewrite (trailers_extend _ _ E r (Nat.lt_succ_diag_r _) Et).
+    destruct r; reflexivity. }
+  destruct (take_exact sz after) as [[chunk after2]|] eqn:Et; [|contradiction].
+  rewrite (take_exact_app_found _ _ _ _ E Et).
+  destruct after2 as [|a [|b after3]]; try contradiction.
+  cbn [app]. destruct ((a =? 13) && (b =? 10)) eqn:Eab; [|reflexivity].
+  pose proof (take_exact_spec _ _ _ _ Et) as [Ha _].
+  pose proof (f_equal (@length N) Ha) as L2. rewrite !app_length in L2. cbn [length] in L2.
+  rewrite (advance_fuel_irrel cap _ (S (length (after3 ++ E))) (after3 ++ E)).
+  - apply IH; [lia|exact H].
+  - rewrite !app_length. lia.
+  - lia.
+Qed.
+
+(* the framing decision for the first request of a buffer *)
+Definition cres_of (hs body data : list N) (cl : N) (chunked : bool) : cend :=
+  if chunked then chunked_end body (lenN hs + 4)
+  else if lenN data <? lenN hs + 4 + cl then ENeed
+       else EEnd (lenN hs + 4 + cl) (firstn (N.to_nat cl) body).
+
+Lemma cres_end_ge4 hs body data cl chunked e dec :
+  cres_of hs body data cl chunked = EEnd e dec -> 4 <= e.
+Proof.
+  unfold cres_of, chunked_end. destruct chunked.
+  - destruct (advance _ _ body []); try discriminate. intros H; injection H as <- _. lia.
+  - destruct (_ <? _); [discriminate|]. intros H; injection H as <- _. lia.
+Qed.
+
+Lemma extract_fuel_irrel : forall f1 f2 data, (length data < f1)%nat -> (length data < f2)%nat ->
+  extract f1 data = extract f2 data.
+Proof.
+  induction f1 as [|f1 IH]; intros f2 data H1 H2; [lia|]. destruct f2 as [|f2]; [lia|]. cbn [extract].
+  destruct (find_pat CRLF2 data) as [[hs body]|] eqn:Ef; [|reflexivity].
+  destruct (MAX_HEADER_SIZE <? lenN hs); [reflexivity|].
+  destruct (scan_headers (header_lines hs) None false false false) as [| |cl chunked]; try reflexivity.
+  fold (cres_of hs body data cl chunked).
+  destruct (cres_of hs body data cl chunked) as [| |e dec] eqn:Ec; try reflexivity.
+  pose proof (cres_end_ge4 _ _ _ _ _ _ _ Ec) as He.
+  pose proof (find_pat_spec _ _ _ _ Ef) as HX. pose proof (f_equal (@length N) HX) as L1.
+  unfold CRLF2 in L1. rewrite !app_length in L1. cbn [length] in L1.
+  rewrite (IH f2 (skipn (N.to_nat e) data)); [reflexivity| |]; rewrite skipn_length; lia.
+Qed.
+
+(* what extract leaves behind contains no further complete request *)
+Lemma extract_rem_settled : forall f data a rem, (length data < f)%nat ->
+  extract f data = (a, rem, false) -> extract (S (length rem)) rem = ([], rem, false).
+Proof.
+  induction f as [|f IH]; intros data a rem Hf H; [lia|]. cbn [extract] in H.
+  destruct (find_pat CRLF2 data) as [[hs body]|] eqn:Ef.
+  2:{ injection H as <- <-. cbn [extract]. now rewrite Ef. }
+  destruct (MAX_HEADER_SIZE <? lenN hs) eqn:Emax; [discriminate|].
+  destruct (scan_headers (header_lines hs) None false false false) as [| |cl chunked] eqn:Es; try discriminate.
+  fold (cres_of hs body data cl chunked) in H.
+  destruct (cres_of hs body data cl chunked) as [| |e dec] eqn:Ec; try discriminate.
+  - injection H as <- <-. cbn [extract]. rewrite Ef, Emax, Es. fold (cres_of hs body data cl chunked). now rewrite Ec.
+  - pose proof (cres_end_ge4 _ _ _ _ _ _ _ Ec) as He.
+    destruct (extract f (skipn (N.to_nat e) data)) as [[acts rem'] closed] eqn:Ex.
+    injection H as <- <- ->.
+    pose proof (find_pat_spec _ _ _ _ Ef) as HX. pose proof (f_equal (@length N) HX) as L1.
+    unfold CRLF2 in L1. rewrite !app_length in L1. cbn [length] in L1.
+    assert (Hl : (length (skipn (N.to_nat e) data) < f)%nat) by (rewrite skipn_length; lia).
+    apply (IH _ _ _ Hl Ex).
+Qed.
+
+Lemma firstn_app_le {A} n (l e : list A) : (n <= length l)%nat -> firstn n (l ++ e) = firstn n l.
+Proof.
+  intros H. rewrite firstn_app. replace (n - length l)%nat with 0%nat by lia. cbn [firstn]. apply app_nil_r.
+Qed.
+Lemma skipn_app_le {A} n (l e : list A) : (n <= length l)%nat -> skipn n (l ++ e) = skipn n l ++ e.
+Proof.
+  intros H. rewrite skipn_app. replace (n - length l)%nat with 0%nat by lia. reflexivity.
+Qed.
+
+(* the framing decision for the first request is stable under extension of the buffer, unless it was "need more" *)
+Lemma cres_extend hs body data cl chunked E :
+  data = hs ++ CRLF2 ++ body ->
+  match cres_of hs body data cl chunked with
+  | ENeed => True
+  | EBad => cres_of hs (body ++ E) (data ++ E) cl chunked = EBad
+  | EEnd e dec => cres_of hs (body ++ E) (data ++ E) cl chunked = EEnd e dec /\ e <= lenN data
+  end.
+Proof.
+  intros Hd. assert (HL : lenN data = lenN hs + 4 + lenN body).
+  { subst data. rewrite !lenN_app. unfold CRLF2. rewrite !lenN_cons, lenN_nil. lia. }
+  unfold cres_of, chunked_end. destruct chunked.
+  - pose proof (advance_extend MAX_BODY_SIZE (S (length body)) body [] E (Nat.lt_succ_diag_r _)) as Hx.
+    destruct (advance (S (length body)) MAX_BODY_SIZE body []) as [r d|d s| |] eqn:Ea; try exact I.
+    + rewrite (Hx I). cbn [ext_res]. split; [|lia]. f_equal. rewrite !lenN_app. lia.
+    + rewrite (Hx I). reflexivity.
+  - destruct (lenN data <? lenN hs + 4 + cl) eqn:El; [exact I|].
+    assert (El' : lenN (data ++ E) <? lenN hs + 4 + cl = false) by (rewrite lenN_app; lia).
+    rewrite El'. split; [|lia]. f_equal. apply firstn_app_le. unfold lenN in *. lia.
+Qed.
+
+Definition sresult := (list sact * list N * bool)%type.
+
+(* extracting from an extended buffer = extracting from the buffer, then from what it left plus the extension *)
+Lemma extract_extend : forall f P E a rem cl, (length P < f)%nat -> extract f P = (a, rem, cl) ->
+  let '(a', rem', cl') := extract (S (length (P ++ E))) (P ++ E) in
+  if cl then a' = a /\ cl' = true
+  else let '(a2, rem2, cl2) := extract (S (length (rem ++ E))) (rem ++ E) in
+       a' = a ++ a2 /\ rem' = rem2 /\ cl' = cl2.
+Proof.
+  induction f as [|f IH]; intros P E a rem cl Hf H; [lia|].
+  cbn [extract] in H.
+  destruct (find_pat CRLF2 P) as [[hs body]|] eqn:Ef.
+  2:{ injection H as <- <- <-. destruct (extract (S (length (P ++ E))) (P ++ E)) as [[a' rem'] cl']. auto. }
+  pose proof (find_pat_spec _ _ _ _ Ef) as HP.
+  pose proof (find_pat_app_found _ _ _ _ E Ef) as Ef'.
+  destruct (MAX_HEADER_SIZE <? lenN hs) eqn:Emax.
+  { cbn [extract]. rewrite Ef', Emax. injection H as <- <- <-. auto. }
+  destruct (scan_headers (header_lines hs) None false false false) as [| |n chunked] eqn:Es.
+  { cbn [extract]. rewrite Ef', Emax, Es. injection H as <- <- <-. auto. }
+  { cbn [extract]. rewrite Ef', Emax, Es. injection H as <- <- <-. auto. }
+  fold (cres_of hs body P n chunked) in H.
+  pose proof (cres_extend hs body P n chunked E HP) as Hc.
+  destruct (cres_of hs body P n chunked) as [| |e dec] eqn:Ec.
+  - (* need more: everything is kept *)
+    injection H as <- <- <-.
+    destruct (extract (S (length (P ++ E))) (P ++ E)) as [[a' rem'] cl']. auto.
+  - cbn [extract]. rewrite Ef', Emax, Es. fold (cres_of hs (body ++ E) (P ++ E) n chunked).
+    rewrite Hc. injection H as <- <- <-. auto.
+  - destruct (extract f (skipn (N.to_nat e) P)) as [[acts rem0] closed] eqn:Ex.
+    injection H as <- <- <-.
+    set (R := extract (S (length (rem0 ++ E))) (rem0 ++ E)).
+    cbn [extract]. rewrite Ef', Emax, Es. fold (cres_of hs (body ++ E) (P ++ E) n chunked).
+    destruct Hc as [Hc Hle]. rewrite Hc. cbv zeta.
+    pose proof (cres_end_ge4 _ _ _ _ _ _ _ Ec) as He.
+    assert (Hlen : (N.to_nat e <= length P)%nat) by (unfold lenN in Hle; lia).
+    rewrite (firstn_app_le _ _ _ Hlen), (skipn_app_le _ _ _ Hlen).
+    assert (HL1 : (length P >= 4)%nat).
+    { pose proof (f_equal (@length N) HP) as L1. unfold CRLF2 in L1. rewrite !app_length in L1. cbn [length] in L1. lia. }
+    assert (Hl : (length (skipn (N.to_nat e) P) < f)%nat) by (rewrite skipn_length; lia).
+    pose proof (IH _ E _ _ _ Hl Ex) as Hih.
+    rewrite (extract_fuel_irrel (length (P ++ E)) (S (length (skipn (N.to_nat e) P ++ E)))).
+    2:{ rewrite !app_length, skipn_length. lia. }
+    2:{ lia. }
+    destruct (extract (S (length (skipn (N.to_nat e) P ++ E))) (skipn (N.to_nat e) P ++ E)) as [[a' rem'] cl'].
+    destruct closed.
+    + destruct Hih as [-> ->]. auto.
+    + fold R in Hih. destruct R as [[a2 rem2] cl2].
+      destruct Hih as (-> & -> & ->). auto.
+Qed.
+
+Lemma extract_rem_length : forall f data a rem cl, extract f data = (a, rem, cl) ->
+  (length rem <= length data)%nat.
+Proof.
+  induction f as [|f IH]; intros data a rem cl H; cbn [extract] in H.
+  { injection H as <- <- <-. lia. }
+  destruct (find_pat CRLF2 data) as [[hs body]|] eqn:Ef; [|injection H as <- <- <-; lia].
+  destruct (MAX_HEADER_SIZE <? lenN hs); [injection H as <- <- <-; lia|].
+  destruct (scan_headers (header_lines hs) None false false false) as [| |n chunked];
+    try (injection H as <- <- <-; cbn [length]; lia).
+  fold (cres_of hs body data n chunked) in H.
+  destruct (cres_of hs body data n chunked) as [| |e dec]; try (injection H as <- <- <-; cbn [length]; lia).
+  destruct (extract f (skipn (N.to_nat e) data)) as [[acts rem0] closed] eqn:Ex.
+  injection H as <- <- <-. apply IH in Ex. rewrite skipn_length in Ex. lia.
+Qed.
+
+Lemma run_server_closed : forall chunks s, s_closed s = true -> snd (run_server s chunks) = [].
+Proof.
+  induction chunks as [|c cs IH]; intros s Hs; [reflexivity|]. cbn [run_server].
+  unfold server_feed. rewrite Hs. specialize (IH s Hs).
+  destruct (run_server s cs) as [s2 a2]. cbn [snd] in *. now subst.
+Qed.
+
+(* Segmentation independence of the server: the requests framed (and the closes issued) while a stream arrives in
+   arbitrary pieces are those of the whole stream, as long as the connection's buffer cap is not exceeded. *)
+Theorem server_segmentation_gen : forall chunks B,
+  extract (S (length B)) B = ([], B, false) ->
+  lenN (B ++ concat chunks) <= MAX_BUFFER_SIZE ->
+  snd (run_server (mkS B false) chunks) =
+  fst (fst (extract (S (length (B ++ concat chunks))) (B ++ concat chunks))).
+Proof.
+  induction chunks as [|c cs IH]; intros B Hset Hcap.
+  - cbn [concat run_server snd]. rewrite app_nil_r, Hset. reflexivity.
+  - cbn [concat run_server]. unfold server_feed. cbn [s_closed s_buf].
+    assert (Hc : MAX_BUFFER_SIZE <? lenN B + lenN c = false).
+    { cbn [concat] in Hcap. rewrite !lenN_app in Hcap. lia. }
+    rewrite Hc.
+    destruct (extract (S (length (B ++ c))) (B ++ c)) as [[a1 rem1] cl1] eqn:Ex.
+    pose proof (extract_extend _ (B ++ c) (concat cs) _ _ _ (Nat.lt_succ_diag_r _) Ex) as Hext.
+    rewrite app_assoc.
+    destruct (extract (S (length ((B ++ c) ++ concat cs))) ((B ++ c) ++ concat cs)) as [[a' rem'] cl'].
+    cbn [fst].
+    destruct cl1.
+    + destruct Hext as [-> _].
+      pose proof (run_server_closed cs (mkS rem1 true) eq_refl) as Hr.
+      destruct (run_server (mkS rem1 true) cs) as [s2 a2]. cbn [snd] in *. subst a2. now rewrite app_nil_r.
+    + pose proof (extract_rem_settled _ _ _ _ (Nat.lt_succ_diag_r _) Ex) as Hset1.
+      pose proof (extract_rem_length _ _ _ _ _ Ex) as Hlen1.
+      assert (Hcap1 : lenN (rem1 ++ concat cs) <= MAX_BUFFER_SIZE).
+      { cbn [concat] in Hcap. rewrite !lenN_app in *. rewrite app_length in Hlen1. unfold lenN in *. lia. }
+      specialize (IH rem1 Hset1 Hcap1).
+      destruct (extract (S (length (rem1 ++ concat cs))) (rem1 ++ concat cs)) as [[a2 rem2] cl2].
+      destruct Hext as (-> & _ & _). cbn [fst] in IH.
+      destruct (run_server (mkS rem1 false) cs) as [s2 a2']. cbn [snd] in *. now subst.
+Qed.
+
+Theorem server_segmentation chunks :
+  lenN (concat chunks) <= MAX_BUFFER_SIZE ->
+  snd (run_server (mkS [] false) chunks) = snd (run_server (mkS [] false) [concat chunks]).
+Proof.
+  intros Hcap.
+  rewrite (server_segmentation_gen chunks []); [|reflexivity|exact Hcap].
+  rewrite (server_segmentation_gen [concat chunks] []); [|reflexivity|cbn [concat app]; rewrite app_nil_r; exact Hcap].
+  cbn [concat app]. rewrite app_nil_r. reflexivity.
+Qed.
